@@ -1,7 +1,7 @@
 ---- MODULE MC_Bmp ----
 (* Bounded instance for C08 (bitmaps) and C09 (tilesets). *)
-EXTENDS Tileset
-CONSTANTS MaxWidth
+EXTENDS Tileset, Rand
+CONSTANTS MaxWidth, Seed, NRand
 VARIABLES done
 Row(w, bc, seed) == [i \in 1..Pitch(w, bc) |-> ((seed * 37 + i * 11) % 255) + 1]        \* non-zero everywhere, padding included
 Pal(np, seed) == [i \in 1..np |-> <<(i + seed) % 256, (2 * i) % 256, (510 - i) % 256, seed % 256>>]
@@ -21,6 +21,18 @@ TsCase(h, seed) == LET p == TS(h, seed) IN
    [op |-> "tileset", bmp |-> Encode(p), custom |-> EncodeCustom(p), top |-> Encode(TopDown(p))]
 TsBad(w, h, bc) == [op |-> "tileset_bad", bmp |-> Encode(B(w, h, bc, MaxPalette(bc), 1))]
 Detect(prefix, pos) == [op |-> "ts_detect", bytes |-> [i \in 1..pos |-> 7] \o prefix \o <<1, 2, 3, 4>>, pos |-> pos, expect |-> IsCustom(prefix)]
+\* ---- seeded random bitmaps: any depth, width 0..70, height -5..5, any palette length, every byte (padding and 4th palette byte too) arbitrary ----
+RS(r) == Seed * 307 + r
+RDepth(r) == Pick(RS(r), 1, 0, <<1, 4, 8>>)
+RBmp(r) == LET bc == RDepth(r)  w == Below(RS(r), 2, 0, 71)  h == Below(RS(r), 3, 0, 11) - 5
+               np == IF Below(RS(r), 4, 0, 3) = 0 THEN MaxPalette(bc) ELSE Below(RS(r), 5, 0, MaxPalette(bc) + 1) IN
+           [w |-> w, h |-> h, bc |-> bc, palette |-> [i \in 1..np |-> <<Below(RS(r), 6, i, 256), Below(RS(r), 7, i, 256), Below(RS(r), 8, i, 256), Below(RS(r), 9, i, 256)>>],
+            rows |-> [y \in 1..Abs(h) |-> [x \in 1..Pitch(w, bc) |-> Below(RS(r), 10 + y, x, 256)]]]
+\* the header's used-colour count: 0 may stand for a full palette; a partial palette must be announced
+RUsed(r, b) == IF Len(b.palette) = MaxPalette(b.bc) /\ Below(RS(r), 40, 0, 2) = 0 THEN 0 ELSE Len(b.palette)
+RTileset(r) == LET h == 32 * Below(RS(r), 50, 0, 4) * (IF Below(RS(r), 51, 0, 2) = 0 THEN 1 ELSE -1) IN
+  [w |-> 32, h |-> h, bc |-> 8, palette |-> [i \in 1..256 |-> <<Below(RS(r), 52, i, 256), Below(RS(r), 53, i, 256), Below(RS(r), 54, i, 256), Below(RS(r), 55, i, 256)>>],
+   rows |-> [y \in 1..Abs(h) |-> [x \in 1..32 |-> Below(RS(r), 56 + (y % 7), x + y, 256)]]]
 Init == done = FALSE
 Next == /\ ~done /\ done' = TRUE
         /\ \A bc \in Depths : \A w \in 0..MaxWidth : \A h \in {-2, -1, 0, 1, 3} :
@@ -28,6 +40,11 @@ Next == /\ ~done /\ done' = TRUE
              /\ (w % 7 = 1 => \A np \in {1, MaxPalette(bc) - 1} : Emit(<<"partial", bc, w, h, np>>, << BmpRT(B(w, h, bc, np, w), np) >>))
         /\ \A bc \in Depths : \A w \in {0, 1, 5, 9, 33} : \A h \in {-2, 0, 1, 3} : \A np \in {0, 1, MaxPalette(bc)} :
              Emit(<<"factory2", bc, w, h, np>>, << Factory2(B(w, h, bc, np, w + np)) >>)
+        /\ \A r \in 1..NRand : LET b == RBmp(r) IN
+             /\ Assert(Valid(b), "random bitmap is a valid value")
+             /\ (Len(b.palette) > 0 => Emit(<<"rand", Seed, r>>, << BmpRT(b, RUsed(r, b)), Factory2(b) >>))
+        /\ \A r \in 1..(NRand \div 10) : LET p == RTileset(r) IN
+             Emit(<<"ts-rand", Seed, r>>, << [op |-> "tileset", bmp |-> Encode(p), custom |-> EncodeCustom(p), top |-> Encode(TopDown(p))] >>)
         /\ \A h \in {0, 32, -32, 64} : \A seed \in {0, 5} : Emit(<<"ts", h, seed>>, << TsCase(h, seed) >>)
         /\ Emit(<<"tsbad">>, << TsBad(32, 32, 4), TsBad(31, 32, 8), TsBad(33, 32, 8), TsBad(32, 33, 8), TsBad(32, -31, 8) >>)
         /\ \A b1 \in {80, 81}, b2 \in {66, 67}, b3 \in {77, 78}, b4 \in {80, 81} : \A pos \in {0, 3} : Emit(<<"det", b1, b2, b3, b4, pos>>, << Detect(<<b1, b2, b3, b4>>, pos) >>)
